@@ -330,6 +330,13 @@ def run_stacking(case, ctx):
             if rng.rand() < 0.3 and M[n][1] != "tr":
                 m = SkBaseTransformLearner(m, method)
             members.append(m)
+        if trial == 3:
+            # the SAME model object listed twice under two effective methods: as a plain transformer (its distances) and
+            # wrapped with the stacking's method (its labels); each member contributes its own columns
+            km_ = M["KMeans"][0]()
+            method = "predict"
+            chosen = ["KMeans", "KMeans", "LinearRegression" if kind == "reg" else "LogisticRegression"]
+            members = [km_, SkBaseTransformLearner(km_, "predict"), M[chosen[2]][0]()]
         cfg = {"members": chosen, "method": method, "sub": case["sub"], "trial": trial}
         K = "C15/stacking/"
         try:
